@@ -31,6 +31,7 @@ EXPLANATION = (
 )
 ASSUMPTIONS = ["HistFactory XML semantics: LumiRelErr relative, StatError/ShapeSys histograms relative to the nominal", "uproot.open(path) returns a handle to the file content at open time"]
 W, R, C = "src/pyhf/writexml.py", "src/pyhf/readxml.py", "src/pyhf/compat.py"
+MODVAR, MEASVAR = "modtag", "x"
 EXPORTABLE = {"histosys", "staterror", "normsys", "shapesys", "normfactor", "shapefactor"}
 
 
@@ -59,6 +60,9 @@ def run(ctx):
     if mod_map is None:
         ctx.unrecognised(r1, bm, "mod_map", "type->tag dict literal not found")
         return
+    global MODVAR, MEASVAR
+    MODVAR = next((A.unparse(n.target) for n in ast.walk(ps.node) if isinstance(n, ast.For) and any(".tag" in A.unparse(x) for x in ast.walk(n))), "modtag")
+    MEASVAR = next((A.unparse(n.target) for n in ast.walk(pmz.node) if isinstance(n, ast.For) and "Measurement" in A.unparse(n.iter)), "x")
     reader_chain = {}  # tag -> (type, required attrs, optional attrs)
     for n in ast.walk(ps.node):
         if isinstance(n, ast.If):
@@ -72,12 +76,12 @@ def run(ctx):
                                 typ = typ or A.const_value(v)
                 req, opt = set(), set()
                 for d in ast.walk(ast.Module(body=n.body, type_ignores=[])):
-                    if isinstance(d, ast.Subscript) and A.dotted(d.value) == "modtag.attrib" and isinstance(A.const_value(d.slice), str):
+                    if isinstance(d, ast.Subscript) and A.dotted(d.value) == f"{MODVAR}.attrib" and isinstance(A.const_value(d.slice), str):
                         req.add(A.const_value(d.slice))
-                    if isinstance(d, ast.Call) and A.call_attr(d) == "get" and A.dotted(d.func.value) == "modtag.attrib" and d.args:
+                    if isinstance(d, ast.Call) and A.call_attr(d) == "get" and A.dotted(d.func.value) == f"{MODVAR}.attrib" and d.args:
                         opt.add(A.const_value(d.args[0]))
                 for d in ast.walk(n.test):
-                    if isinstance(d, ast.Subscript) and A.dotted(d.value) == "modtag.attrib":
+                    if isinstance(d, ast.Subscript) and A.dotted(d.value) == f"{MODVAR}.attrib":
                         req.add(A.const_value(d.slice))
                 reader_chain[tag] = (typ, req - opt, opt)  # a key that is also probed with .get() is optional
     writer_attrs = _writer_attrs(bm)
@@ -102,7 +106,7 @@ def run(ctx):
     for c in A.calls_in(bmeas.node):
         if A.call_attr(c) == "Element" and c.args and A.const_value(c.args[0]) == "Measurement":
             meas_emit = {k.arg for k in c.keywords if k.arg}
-    meas_req = {A.const_value(n.slice) for n in ast.walk(pmz.node) if isinstance(n, ast.Subscript) and A.dotted(n.value) == "x.attrib"}
+    meas_req = {A.const_value(n.slice) for n in ast.walk(pmz.node) if isinstance(n, ast.Subscript) and A.dotted(n.value) == f"{MEASVAR}.attrib"}
     if meas_req <= meas_emit and meas_req:
         ctx.holds(r1, "<Measurement> attributes", f"reader requires {sorted(meas_req)} subset of emitted {sorted(meas_emit)}")
     else:
@@ -134,9 +138,9 @@ def run(ctx):
         kw = next(k for a, k in made if a and a[0] == "Measurement")
         w_lumi, w_rel = to_poly(kw["Lumi"]), to_poly(kw["LumiRelErr"])
         # reader: the statements assigning lumi / lumierr and the dict that stores them
-        renv = {"x": Obj("x", {"attrib": {"Lumi": w_lumi, "LumiRelErr": w_rel, "Name": "meas"}})}
+        renv = {MEASVAR: Obj("x", {"attrib": {"Lumi": w_lumi, "LumiRelErr": w_rel, "Name": "meas"}})}
         rit = Interp(renv, {}, {}, externals={"float": lambda a, k: a[0]})
-        stmts = [st for st in ast.walk(pmz.node) if isinstance(st, ast.Assign) and any(isinstance(t, ast.Name) and t.id in ("lumi", "lumierr") for t in st.targets)]
+        stmts = [st for st in ast.walk(pmz.node) if isinstance(st, ast.Assign) and isinstance(st.targets[0], ast.Name) and any(isinstance(x, ast.Subscript) and A.dotted(x.value) == f"{MEASVAR}.attrib" and A.const_value(x.slice) in ("Lumi", "LumiRelErr") for x in ast.walk(st.value))]
         for st in sorted(stmts, key=lambda s: s.lineno):
             rit.exec(st)
         pdict = next(d for d in ast.walk(pmz.node) if isinstance(d, ast.Dict) and any(A.const_value(k) == "sigmas" for k in d.keys if k is not None))
@@ -159,7 +163,7 @@ def run(ctx):
     # ------------------------------------------------------------ R3
     prefixes = None
     for n in ast.walk(bmeas.node):
-        if isinstance(n, ast.Assign) and any(isinstance(t, ast.Name) and t.id == "prefixes" for t in n.targets) and isinstance(n.value, ast.Dict):
+        if isinstance(n, ast.Assign) and isinstance(n.value, ast.Dict) and n.value.values and all(A.const_value(v) in ("alpha_", "gamma_", "") for v in n.value.values):
             prefixes = {A.const_value(k): A.const_value(v) for k, v in zip(n.value.keys, n.value.values)}
     want = {"normsys": "alpha_", "histosys": "alpha_", "shapesys": "gamma_", "staterror": "gamma_"}
     if prefixes == want:
@@ -181,7 +185,7 @@ def run(ctx):
         try:
             v = Interp({"paramset": spec}, {}, {}).run(A.strip_docstring(ptr.node.body))
             txt = A.unparse(next(r.value for r in ast.walk(ptr.node) if isinstance(r, ast.Return)))
-            ok = (v == "Lumi") if wantv == "Lumi" else (v == "<fstring>")
+            ok = (v == "Lumi") if wantv == "Lumi" else (v == ("alpha_x" if wantv == "alpha_" else "x"))
             if ok:
                 ctx.holds(r3, f"{C}::paramset_to_rootnames [{wantv}]")
             else:
@@ -189,7 +193,7 @@ def run(ctx):
         except Undecided as e:
             ctx.unrecognised(r3, ptr, "paramset_to_rootnames", str(e))
     fstrs = [A.unparse(n) for n in ast.walk(ptr.node) if isinstance(n, ast.JoinedStr)]
-    if any(s.startswith("f'alpha_{") for s in fstrs) and any(s.startswith("f'gamma_{") and "_{index}" in s for s in fstrs):
+    if any(s.startswith("f'alpha_{") for s in fstrs) and any(s.startswith("f'gamma_{") and "}_{" in s for s in fstrs):
         ctx.holds(r3, f"{C}::paramset_to_rootnames", "alpha_<name>, gamma_<name>_<i>")
     else:
         ctx.violated(r3, ptr, "rootname formats", "compat no longer produces alpha_<name> / gamma_<name>_<index>", found=str(fstrs))
@@ -263,26 +267,34 @@ def run(ctx):
 
 def _tag_of(test):
     for n in ast.walk(test):
-        if isinstance(n, ast.Compare) and A.dotted(n.left) == "modtag.tag" and isinstance(A.const_value(n.comparators[0]), str):
+        if isinstance(n, ast.Compare) and A.dotted(n.left) == f"{MODVAR}.tag" and isinstance(A.const_value(n.comparators[0]), str):
             return A.const_value(n.comparators[0])
     return None
+
+
+def _attrs_var(bm):
+    for n in ast.walk(bm.node):
+        if isinstance(n, ast.Assign) and isinstance(n.value, ast.Dict) and any(A.const_value(k) == "Name" for k in n.value.keys if k is not None):
+            return A.unparse(n.targets[0])
+    return "attrs"
 
 
 def _writer_attrs(bm):
     """type -> attribute names emitted (Name + attrs[...] stores in that type's branch, minus deletions)."""
     out = {}
     base = {"Name"}
+    AV = _attrs_var(bm)
     for n in ast.walk(bm.node):
         if isinstance(n, ast.If) and isinstance(n.test, ast.Compare) and "modifierspec['type']" in A.unparse(n.test.left):
             typ = A.const_value(n.test.comparators[0])
             em = set(base)
             for st in n.body:
                 for x in ast.walk(st):
-                    if isinstance(x, ast.Assign) and isinstance(x.targets[0], ast.Subscript) and A.dotted(x.targets[0].value) == "attrs":
+                    if isinstance(x, ast.Assign) and isinstance(x.targets[0], ast.Subscript) and A.dotted(x.targets[0].value) == AV:
                         em.add(A.const_value(x.targets[0].slice))
                     if isinstance(x, ast.Delete):
                         for t in x.targets:
-                            if isinstance(t, ast.Subscript) and A.dotted(t.value) == "attrs":
+                            if isinstance(t, ast.Subscript) and A.dotted(t.value) == AV:
                                 em.discard(A.const_value(t.slice))
             out[typ] = em
     return out
@@ -299,15 +311,23 @@ def _branch(fn_node, var, key, value):
 
 def _unit_modifiers(ctx, rid, bm, ps):
     U, N = Poly.atom("UNC"), Poly.atom("NOM")
+    AV = _attrs_var(bm)
     # ---- StatError
     wb = _branch(bm.node, "modifierspec['type']", None, "staterror")
-    rb = _branch(ps.node, "modtag.tag", None, "StatError")
+    rb = _branch(ps.node, f"{MODVAR}.tag", None, "StatError")
     try:
         wexp = next(c for c in A.calls_in(ast.Module(body=wb.body, type_ignores=[])) if A.call_attr(c) == "_export_root_histogram")
-        env = {"modifierspec": {"data": U, "name": "m", "type": "staterror"}, "sampledata": N, "np": Obj("np"), "attrs": {"HistoName": "h"}}
+        env = {"modifierspec": {"data": U, "name": "m", "type": "staterror"}, "sampledata": N, "np": Obj("np"), AV: {"HistoName": "h"}}
         wv = to_poly(Interp(env, {}, {}).eval(wexp.args[1]))
         rmul = next(c for c in A.calls_in(ast.Module(body=rb.body, type_ignores=[])) if A.call_attr(c) == "multiply")
-        rv = to_poly(Interp({"extstat": wv, "data": N, "np": Obj("np")}, {}, {}).eval(rmul))
+        from ..dep import Deps as _D0
+        _rd0 = _D0(ps.node)
+        renv = {"np": Obj("np")}
+        for arg in rmul.args:
+            for dn in A.names_loaded(arg):
+                from_modifier = any(f"{MODVAR}.attrib" in A.unparse(dv) for dv in _rd0.defs.get(dn, []))
+                renv[dn] = wv if from_modifier else N
+        rv = to_poly(Interp(renv, {}, {}).eval(rmul))
         if rv == U:
             ctx.holds(rid, "StatError histogram", f"writer {wv}, reader x nominal -> UNC")
         else:
@@ -316,7 +336,7 @@ def _unit_modifiers(ctx, rid, bm, ps):
         ctx.unrecognised(rid, bm, "StatError conversion", f"{type(e).__name__}: {e}")
     # ---- ShapeSys
     wb = _branch(bm.node, "modifierspec['type']", None, "shapesys")
-    rb = _branch(ps.node, "modtag.tag", None, "ShapeSys")
+    rb = _branch(ps.node, f"{MODVAR}.tag", None, "ShapeSys")
     try:
         comp = next(n for n in ast.walk(ast.Module(body=wb.body, type_ignores=[])) if isinstance(n, ast.ListComp))
         div = next(c for c in A.calls_in(comp.elt) if A.call_attr(c) == "divide")
@@ -330,8 +350,11 @@ def _unit_modifiers(ctx, rid, bm, ps):
         rt = [t.id for t in rcomp.generators[0].target.elts]
         zargs = rcomp.generators[0].iter.args
         rbind = {}
+        from ..dep import Deps as _D
+        _rd = _D(ps.node)
         for nm, e in zip(rt, zargs):
-            rbind[nm] = N if A.unparse(e) == "data" else wv
+            from_modifier = any(f"{MODVAR}.attrib" in A.unparse(dv) for dn in A.names_loaded(e) for dv in _rd.defs.get(dn, []))
+            rbind[nm] = wv if from_modifier else N
         rv = to_poly(Interp(rbind, {}, {}).eval(rcomp.elt))
         if rv == U:
             ctx.holds(rid, "ShapeSys histogram", f"writer {wv}, reader x nominal -> UNC")
@@ -346,7 +369,7 @@ def _unit_modifiers(ctx, rid, bm, ps):
     }
     for typ, (tag, amap) in pairs.items():
         wb = _branch(bm.node, "modifierspec['type']", None, typ)
-        rb = _branch(ps.node, "modtag.tag", None, tag)
+        rb = _branch(ps.node, f"{MODVAR}.tag", None, tag)
         if wb is None or rb is None:
             ctx.unrecognised(rid, bm, typ, "branch not found")
             continue
@@ -362,7 +385,7 @@ def _unit_modifiers(ctx, rid, bm, ps):
                     if isinstance(x, ast.Assign) and isinstance(x.targets[0], ast.Subscript) and A.const_value(x.targets[0].slice) == attr:
                         if f"['{field}']" in A.unparse(x.value):
                             w_ok = True
-                    if isinstance(x, ast.Call) and A.call_attr(x) == "_export_root_histogram" and f"attrs['{attr}']" in A.unparse(x.args[0]) and f"['{field}']" in A.unparse(x.args[1]):
+                    if isinstance(x, ast.Call) and A.call_attr(x) == "_export_root_histogram" and f"{AV}['{attr}']" in A.unparse(x.args[0]) and f"['{field}']" in A.unparse(x.args[1]):
                         w_ok = True
             r_ok = False
             # reader: dict entry field <- value depending on attrib[attr]
@@ -387,12 +410,24 @@ def _unit_modifiers(ctx, rid, bm, ps):
             ctx.violated(rid, bm, f"<{tag}> High/Low pairing", f"up and down variations are not written and read back under the same attribute: {why}", expected=str(amap))
     # NormFactor Val/Low/High
     wb = _branch(bm.node, "modifierspec['type']", None, "normfactor")
-    rb = _branch(ps.node, "modtag.tag", None, "NormFactor")
+    rb = _branch(ps.node, f"{MODVAR}.tag", None, "NormFactor")
     try:
-        wsrc = {A.const_value(x.targets[0].slice): A.unparse(x.value) for st in wb.body for x in ast.walk(st) if isinstance(x, ast.Assign) and isinstance(x.targets[0], ast.Subscript) and A.dotted(x.targets[0].value) == "attrs"}
+        wsrc = {A.const_value(x.targets[0].slice): A.unparse(x.value) for st in wb.body for x in ast.walk(st) if isinstance(x, ast.Assign) and isinstance(x.targets[0], ast.Subscript) and A.dotted(x.targets[0].value) == AV}
         rd = next(d for d in ast.walk(ast.Module(body=rb.body, type_ignores=[])) if isinstance(d, ast.Dict) and any(A.const_value(k) == "bounds" for k in d.keys))
         rmap = {A.const_value(k): A.unparse(v) for k, v in zip(rd.keys, rd.values)}
-        ok = wsrc.get("Val") == "str(val)" and wsrc.get("Low") == "str(low)" and wsrc.get("High") == "str(high)" and "'Val'" in rmap.get("inits", "") and rmap.get("bounds", "").index("'Low'") < rmap.get("bounds", "").index("'High'")
+        from ..dep import Deps as _D2
+        _wd = _D2(bm.node)
+        def _src(attr):
+            v = next((x.value for st in wb.body for x in ast.walk(st) if isinstance(x, ast.Assign) and isinstance(x.targets[0], ast.Subscript) and A.const_value(x.targets[0].slice) == attr), None)
+            names = A.names_loaded(v) if v is not None else set()
+            return " ".join(A.unparse(dv) for nm in names for dv in _wd.defs.get(nm, []))
+        lowhigh = None
+        for st in ast.walk(wb.body[0] if False else ast.Module(body=wb.body, type_ignores=[])):
+            if isinstance(st, ast.Assign) and isinstance(st.targets[0], ast.Tuple) and len(st.targets[0].elts) == 2 and "'bounds'" in A.unparse(st.value):
+                lowhigh = [A.unparse(e) for e in st.targets[0].elts]
+        lv = next((A.unparse(x.value) for st in wb.body for x in ast.walk(st) if isinstance(x, ast.Assign) and isinstance(x.targets[0], ast.Subscript) and A.const_value(x.targets[0].slice) == "Low"), "")
+        hv = next((A.unparse(x.value) for st in wb.body for x in ast.walk(st) if isinstance(x, ast.Assign) and isinstance(x.targets[0], ast.Subscript) and A.const_value(x.targets[0].slice) == "High"), "")
+        ok = "'inits'" in _src("Val") and lowhigh is not None and lv == f"str({lowhigh[0]})" and hv == f"str({lowhigh[1]})" and "'Val'" in rmap.get("inits", "") and rmap.get("bounds", "").index("'Low'") < rmap.get("bounds", "").index("'High'")
         if ok:
             ctx.holds(rid, "<NormFactor> Val/Low/High", "inits <- Val, bounds <- [Low, High]")
         else:
